@@ -180,7 +180,7 @@ def unsplit_netloc(username, password, hostname, port):
         auth = None
 
     # NOTE: an ipv6 literal loses its brackets when parsed
-    if ":" in hostname and not hostname.startswith("["):
+    if hostname and ":" in hostname and not hostname.startswith("["):
         hostname = "[" + hostname + "]"
 
     if auth:
